@@ -342,9 +342,11 @@ func cmdRun(args []string) int {
 
 	// simulator self-check: the same scenario under different GOMAXPROCS must
 	// give the same trace hash
-	if msg := selfCheck(pl); msg != "" {
-		fmt.Println("HARNESS-ERROR: simulator self-check failed:", msg)
-		return 2
+	// (a failed self-check does not stop the run: every episode is its own
+	// process with its own oracle; it turns a clean run into exit 2)
+	selfMsg := selfCheck(pl)
+	if selfMsg != "" {
+		fmt.Println("HARNESS-ERROR: simulator self-check failed:", selfMsg)
 	}
 
 	par := runtime.NumCPU()
@@ -375,13 +377,13 @@ func cmdRun(args []string) int {
 	if pl.post != nil {
 		viols = append(viols, pl.post(outs)...)
 	}
-	if len(herrs) > 0 {
-		for i, h := range herrs {
-			if i >= 5 {
-				break
-			}
-			fmt.Println("HARNESS-ERROR:", h)
+	for i, h := range herrs {
+		if i >= 5 {
+			break
 		}
+		fmt.Println("HARNESS-ERROR:", h)
+	}
+	if len(herrs) > 0 && len(viols) == 0 {
 		return 2
 	}
 
@@ -441,6 +443,9 @@ func cmdRun(args []string) int {
 		return 2
 	}
 	fmt.Printf("simcheck run %s %s: %d episodes, %d violations (%d signatures, %d known), %.1fs\n", prop, tier, len(outs), len(viols), len(sigs), known, time.Since(t0).Seconds())
+	if exit == 0 && (selfMsg != "" || len(herrs) > 0) {
+		return 2
+	}
 	return exit
 }
 
@@ -474,7 +479,7 @@ func selfCheck(pl *plan) string {
 		oa := runChild([]*Scenario{&a}, 0, episodeWallLimit())
 		ob := runChild([]*Scenario{&b}, 1, episodeWallLimit())
 		if len(oa) != 1 || len(ob) != 1 || oa[0].res == nil || ob[0].res == nil {
-			if len(oa) == 1 && oa[0].crashed {
+			if (len(oa) == 1 && oa[0].crashed) || (len(ob) == 1 && ob[0].crashed) {
 				// a crash is for the main run to classify
 				return ""
 			}
